@@ -132,6 +132,66 @@ func c02FilterRun(f []string) string {
 			return "panic"
 		}
 		return "ok " + Hex(out)
+	case "filtl":
+		// filtl <enabled> <-l> <num> <K|-> <m|d> <pattern> <lines> <indices;…>
+		if len(f) != 9 {
+			return "bad-args"
+		}
+		kind, pat := f[5], string(UnHex(f[6]))
+		lines := UnHexList(f[7])
+		var ixs []string
+		var data []byte
+		for _, l := range lines {
+			ix, ok := c02Indices(kind, pat, l)
+			if !ok || bytes.ContainsAny(l, "\n") {
+				return "bad-case"
+			}
+			ixs = append(ixs, c02IntsStr(ix))
+			data = append(append(data, l...), '\n')
+		}
+		if strings.Join(ixs, ";") != f[8] || len(lines) == 0 {
+			return "bad-case"
+		}
+		if c02tmp == "" {
+			d, err := os.MkdirTemp("", "c02filt")
+			if err != nil {
+				return "bad-env"
+			}
+			c02tmp = d
+		}
+		path := filepath.Join(c02tmp, "inl.txt")
+		if err := os.WriteFile(path, data, 0o644); err != nil {
+			return "bad-env"
+		}
+		args := []string{"rare", "filter"}
+		if f[2] == "1" {
+			args = append(args, "-l")
+		}
+		if f[3] != "0" {
+			args = append(args, "-n", f[3])
+		}
+		if f[4] != "-" {
+			args = append(args, "-e", "{src}:{line}:{"+f[4]+"}")
+		}
+		if kind == "d" {
+			args = append(args, "-d", pat, path)
+		} else {
+			args = append(args, "-m", pat, path)
+		}
+		app := cli.NewApp()
+		app.Commands = cmd.GetSupportedCommands()
+		app.ExitErrHandler = func(*cli.Context, error) {}
+		var runErr interface{}
+		out := c02Capture(func() {
+			defer func() { runErr = recover() }()
+			color.Enabled = f[1] == "1"
+			app.Run(args)
+		})
+		color.Enabled = true
+		if runErr != nil {
+			return "panic"
+		}
+		return "ok " + Hex(bytes.ReplaceAll(out, []byte(path), []byte("IN")))
 	case "idx":
 		// idx <m|d> <pattern> <line>: the real matcher's index list (used by extra/C02.py to build `filt` cases)
 		if len(f) != 4 {
@@ -204,6 +264,46 @@ func c02FilterGen(r *Rand, tier string) []string {
 			}
 			out = append(out, "vis "+HexS(col))
 		}
+	}
+	// the whole output loop: several lines, --line prefix, --num limit, --extract branch
+	nl := 120
+	if tier == "thorough" {
+		nl = 3000
+	}
+	for i := 0; i < nl; i++ {
+		kind, pat := "m", Pick(r, c02Patterns)
+		if r.Chance(1, 5) {
+			kind, pat = "d", Pick(r, c02Dissects)
+		}
+		cnt := 1 + r.Intn(7)
+		var lines [][]byte
+		var ixs []string
+		ok := true
+		for k := 0; k < cnt; k++ {
+			var sb strings.Builder
+			for w := r.Intn(4); w >= 0; w-- {
+				sb.WriteString(Pick(r, words))
+				if w > 0 {
+					sb.WriteString(Pick(r, []string{" ", " ", "", ":"}))
+				}
+			}
+			l := []byte(sb.String())
+			ix, good := c02Indices(kind, pat, l)
+			if !good {
+				ok = false
+				break
+			}
+			lines = append(lines, l)
+			ixs = append(ixs, c02IntsStr(ix))
+		}
+		if !ok {
+			continue
+		}
+		en := Pick(r, []string{"1", "1", "0"})
+		wl := Pick(r, []string{"1", "1", "0"})
+		num := Pick(r, []string{"0", "0", "1", "2", "3", "100", "-1"})
+		k := Pick(r, []string{"-", "-", "0", "1", "2", "7"})
+		out = append(out, fmt.Sprintf("filtl %s %s %s %s %s %s %s %s", en, wl, num, k, kind, HexS(pat), HexList(lines), strings.Join(ixs, ";")))
 	}
 	return out
 }
